@@ -53,7 +53,11 @@ def scenario(params, ch):
     api, size, mtu, fates, blackout, other, order, latency, window = params
     sender, method = APIS[api]
     mon = DeliveryMonitor(flag_delivery=False)
-    w = World(order=order, latency=latency, chooser=ch, monitors=[mon], mtu=mtu)
+    opts = order.split("|")[1:]     # "cs|dt60": 60 Hz frames; "cs|ka0.5": keep-alive (= resend delay) 0.5 s on both ends
+    order = order.split("|")[0]
+    ka = next((float(o[2:]) for o in opts if o.startswith("ka")), None)
+    w = World(order=order, latency=latency, chooser=ch, monitors=[mon], mtu=mtu, dt=(1.0 / 60 if "dt60" in opts else 1.0 / 64),
+              server_cfg=({"setKeepAliveInterval": ka} if ka else None), client_cfg=({"setKeepAliveInterval": ka} if ka else None))
     try:
         w.run_until_connected()
         w.run(2)
@@ -150,6 +154,8 @@ def params_list(tier):
                     cfgs = [("cs", 1)] if tier == "quick" else [("cs", 1), ("sc", 0), ("sc", 1), ("cs", 0)]
                     if b is None and other in (False, True):
                         cfgs = cfgs + ([("cs", 8)] if tier == "quick" else [("cs", 8), ("sc", 20)])   # RTT > resend interval
+                    if other is False and (b is None or b[2] >= 77):
+                        cfgs = cfgs + [("cs|dt60", 1), ("cs|ka0.5", 1)] + ([("sc|dt60", 0), ("cs|ka1.0", 1)] if tier == "thorough" else [])
                     for order, latency in cfgs:
                         if tier == "quick" and other and b is not None:
                             continue
